@@ -64,6 +64,9 @@ const (
 	daoID = 1
 	baseS = "p\x01\x00\x00\x00" // STStorage | contract id 1 (LE): the dao.Simple storage item layout
 	baseM = "m"                 // a key class that MemoryStore keeps in its other map (`mem`, not `stor`)
+
+	otherID = 2
+	baseS2  = "p\x02\x00\x00\x00" // storage of a second contract: touched by re-entrant Seek callbacks
 )
 
 type rangeQ struct {
@@ -120,8 +123,12 @@ func buildScenarios(nkeys int) []*scen {
 			sc := &scen{Name: cl + "/" + g.name, Class: cl}
 			if cl == "S" {
 				sc.Base = baseS
-				sc.BeInit = map[string][]byte{"o\xff": vals[2], "q": vals[2], "p\x01\x00\x00\x01": vals[2], "p\x00\xff\xff\xff\xff": vals[2]}
-				sc.L1Init = map[string][]byte{"q\x00": vals[2]}
+				// baseS+"\x01": an item of the scanned contract that is already in the backend.
+				// Contract 2: "a" flushed, "b" pending in the lowest layer, "c" flushed and deleted
+				// in the lowest layer (they take no part in the choice of Start values).
+				sc.BeInit = map[string][]byte{"o\xff": vals[2], "q": vals[2], "p\x01\x00\x00\x01": vals[2], "p\x00\xff\xff\xff\xff": vals[2],
+					baseS + "\x01": vals[2], baseS2 + "a": vals[2], baseS2 + "c": vals[2]}
+				sc.L1Init = map[string][]byte{"q\x00": vals[2], baseS2 + "b": vals[2], baseS2 + "c": nil}
 			} else {
 				sc.Base = baseM
 				sc.BeInit = map[string][]byte{"l\xff": vals[2], "n": vals[2]}
@@ -154,10 +161,17 @@ func (sc *scen) finish() {
 		u[k] = true
 	}
 	for k := range u {
-		sc.universe = append(sc.universe, k)
+		if !strings.HasPrefix(k, baseS2) {
+			sc.universe = append(sc.universe, k)
+		}
 	}
 	sort.Strings(sc.universe)
 	sc.GetKeys = append(append([]string{}, sc.universe...), sc.Base+"zz", sc.Base[:1])
+	for k := range u {
+		if strings.HasPrefix(k, baseS2) {
+			sc.GetKeys = append(sc.GetKeys, k)
+		}
+	}
 	sort.Strings(sc.GetKeys)
 	sc.GetKeys = uniq(sc.GetKeys)
 
@@ -308,6 +322,14 @@ func newModel(beKind, shape string, sc *scen) *model {
 		m.ly[0][k] = v
 	}
 	return m
+}
+
+func (m *model) clone() *model {
+	o := &model{beKind: m.beKind, be: m.be.clone(), kinds: append([]byte{}, m.kinds...)}
+	for _, l := range m.ly {
+		o.ly = append(o.ly, l.clone())
+	}
+	return o
 }
 
 func (m *model) writeBackend(cs level) {
